@@ -561,7 +561,8 @@ def plan_c08(tier, seed):
     runs += shards("std-release", "c08", 4, ["mode=free", "seed=%d" % seed, "iters=400000"], timeout=3400)
     runs += shards("tsan", "c08", 4, ["mode=free", "seed=%d" % (seed + 1), "iters=200000"], timeout=3400)
     for rate in ("", " -Zmiri-preemption-rate=0.05", " -Zmiri-preemption-rate=0.2"):
-        runs.append(Run("miri", "c08", ["mode=free", "seed=%d" % seed, "iters=12"], timeout=3400, miri_flags="-Zmiri-many-seeds=0..256" + rate))
+        # (sized to finish in ~10 min on an idle machine: a loaded one must still make the 3400 s watchdog)
+        runs.append(Run("miri", "c08", ["mode=free", "seed=%d" % seed, "iters=8"], timeout=3400, miri_flags="-Zmiri-many-seeds=0..160" + rate))
     return runs
 
 
@@ -644,6 +645,30 @@ _ROUND7 = {
 }
 for _pid, _txt in _ROUND7.items():
     META[_pid]["rule"] = META[_pid]["rule"].rstrip() + " Round-7 additions: " + _txt
+
+# Dimensions added in round 8 of the mutation campaign (DESIGN.md §13)
+_ROUND8 = {
+    "C01": "caller-defined ByteValued types aligned to 16, 64, 4096 and 8192 bytes (beyond a page) and u128, through aligned_as_ref / aligned_as_mut / get_ref directly on an MmapRegion whose base is a chosen multiple of 4 KiB (region base % 64 KiB = 0, 4 K, 8 K, 12 K) and on its slices; a caller-defined AtomicInteger of 16 bytes aligned to 16 (value type u64) through get_atomic_ref / store / load - in a forked child, so that an abort inside the library is an observation.",
+    "C02": "maps of 9..257 regions whose START addresses are equally spaced while the last region is longer than the spacing.",
+    "C03": "one memory object shared by reference between six threads, each doing 500 000 verified accesses (write, read, write_obj, read_obj, address queries) in its own region.",
+    "C04": "zero-sized element types ([u8;0], [u64;0], [u128;0]) with element counts 0 .. usize::MAX through slice-level and array-level copy_to / copy_from (forked child with a CPU limit): the count reported is the buffer length (slice level) or min(buffer, array length).",
+    "C05": "where the bitmap is (or wraps) an AtomicBitmap the marked set is read by PAGE INDEX (is_bit_set) and must agree with the address-based view; weak-memory litmus under Miri (32 / 576 seeds): a tracked 8-byte write whose pages span two bitmap words against a harvester that reads the bytes of every page it found dirty.",
+    "C06": "a caller-defined 16-byte atomic aligned to 16: every misaligned offset refused, every aligned fitting one accepted, at slice, region and guest level (forked child).",
+    "C07": "four short HISTORIES in the call table: lookup, hot-unplug of an exact region (also after touching that region's last byte, also with guest-chosen base/size) or hot-plug at a guest-chosen base, then lookups and accesses in the resulting map.",
+    "C08": "free-running threads on tiny bitmaps (2..6 pages): 8000 racing set_bit / reset_bit / get_and_reset calls followed, without any harvest or reset in between, by a SEQUENTIAL epilogue that marks every page, reads every page, harvests and reads again.",
+    "C09": "in builds with overflow checks: an enlarge whose new byte size overflows usize (8 shapes, page sizes 1 .. 2^62) panics; after catching the panic the bitmap must be the set it was (page count, byte size, marks) for all later operations including a later valid enlarge.",
+    "C11": "1.5 million handles cloned while another thread replaces the map continuously (keeping the last 8 maps alive); holding the update lock, the fresh handle and the original must show the same map.",
+    "C12": "a caller-defined NewBitmap whose constructor panics for the k-th region of from_ranges / for from_range with and without a backing file: after the unwinding nothing the construction mapped is left.",
+    "C13": "Xen build: File / UnixStream / OwnedFd adapters reading into and writing from buffers that live in an on-demand grant region (6 offset/length shapes incl. page-crossing and 5000 bytes), compared with std on ordinary buffers; no window left mapped.",
+    "C14": "forwarding implementations the library may provide (&mut S, Box<S> for a caller stream S): detected at compile time; where provided, all 2-step scripts x 4 targets x 2 entries x 3 counts run through them under the same oracle.",
+    "C15": "the builder used step by step with the file length changed (shrunk / grown / same) between with_file_offset() and build(), three call orders: the verdict follows the file as it is at build().",
+    "C17": "a pointer guard kept alive while its region (or the whole guest memory) is dropped, the region holding the last handle of the device file: window still mapped and readable while the guard lives, released through the device when it is dropped, no panic.",
+    "C18": "idle descriptors as streams of zero-count transfers: non-blocking and receive-timeout Unix stream sockets, a non-blocking TCP stream, a file at EOF - Ok without waiting, nothing consumed or sent.",
+    "C19": "a fifth build: release code generated for the build host's full instruction set (-Ctarget-cpu=native).",
+    "C20": "two further interpreted hosts: powerpc64le (quick and thorough) and aarch64 (thorough).",
+}
+for _pid, _txt in _ROUND8.items():
+    META[_pid]["rule"] = META[_pid]["rule"].rstrip() + " Round-8 additions: " + _txt
 
 # properties that are (currently) not claimed, with the reason recorded in MANIFEST.json
 NOT_CLAIMED = {}
